@@ -27,6 +27,7 @@ Definition req_effect (mods : list name) (o : op) (m : name) (c : conn) : option
       else None
   | OIdent c' | ODisconnect c' => if Nat.eqb c' c && mem_name m mods then Some None else None
   | OEmit _ _ _ => None
+  | OActivate _ _ | ODeactivate _ _ => None        (* activation requests decide nothing about logging *)
   end.
 
 (* the choice in force after a history, given newest first: the latest operation that decides, decides *)
@@ -56,7 +57,7 @@ Fixpoint trace_from (mods : list name) (t : table) (ops : list op) : list delive
 (* the operation is a request or event of connection c *)
 Definition by_conn (c : conn) (o : op) : bool :=
   match o with
-  | OLogging c' _ _ | OIdent c' | ODisconnect c' => Nat.eqb c' c
+  | OLogging c' _ _ | OIdent c' | ODisconnect c' | OActivate c' _ | ODeactivate c' _ => Nat.eqb c' c
   | OEmit _ _ _ => false
   end.
 Definition is_logging_by (c : conn) (o : op) : bool :=
@@ -254,7 +255,7 @@ Lemma step_chosen mods t o :
   forall m c, chosen (fst (step mods t o)) m c =
               match req_effect mods o m c with Some x => x | None => chosen t m c end.
 Proof.
-  destruct o as [c spec d|m0 lv py|c|c]; simpl.
+  destruct o as [c spec d|m0 lv py|c|c|c sp|c sp]; simpl; [| | | |split; auto|split; auto].
   - (* logging request *)
     unfold handle_logging, targets.
     destruct (check_level d) as [lv|e] eqn:CL.
@@ -390,7 +391,7 @@ Proof.
   - unfold silences in S. rewrite S. auto.
   - assert (is_logging_by c o' = false) as N1 by (apply NL; auto).
     assert (spec_choice mods (r ++ o :: older) m c = None) as IH by (apply IHr; auto).
-    destruct o' as [c' spec d|m0 lv py|c'|c']; simpl in *; auto.
+    destruct o' as [c' spec d|m0 lv py|c'|c'|c' sp|c' sp]; simpl in *; auto.
     + rewrite N1. auto.
     + destruct (Nat.eqb c' c && mem_name m mods); auto.
     + destruct (Nat.eqb c' c && mem_name m mods); auto.
@@ -422,7 +423,7 @@ Qed.
 Lemma spec_choice_unknown_module mods m c : forall l, mem_name m mods = false -> spec_choice mods l m c = None.
 Proof.
   intros l M. induction l as [|o r]; simpl; auto.
-  destruct o as [c' spec d|m0 lv py|c'|c']; simpl; auto.
+  destruct o as [c' spec d|m0 lv py|c'|c'|c' sp|c' sp]; simpl; auto.
   - destruct (Nat.eqb c' c); auto. destruct (check_level d); auto.
     unfold targets. rewrite M. destruct (is_all spec); auto. destruct spec; auto. rewrite andb_false_r. auto.
   - rewrite M, andb_false_r. auto.
@@ -435,7 +436,7 @@ Proof. apply filter_app. Qed.
 
 Lemma req_effect_other mods o m c c' : by_conn c o = true -> c <> c' -> req_effect mods o m c' = None.
 Proof.
-  intros B N. destruct o as [c0 spec d|m0 lv py|c0|c0]; simpl in *; try discriminate.
+  intros B N. destruct o as [c0 spec d|m0 lv py|c0|c0|c0 sp|c0 sp]; simpl in *; try discriminate; auto.
   - apply Nat.eqb_eq in B; subst. destruct (Nat.eqb c c') eqn:E; auto. apply Nat.eqb_eq in E; contradiction.
   - apply Nat.eqb_eq in B; subst. destruct (Nat.eqb c c') eqn:E; auto. apply Nat.eqb_eq in E; contradiction.
   - apply Nat.eqb_eq in B; subst. destruct (Nat.eqb c c') eqn:E; auto. apply Nat.eqb_eq in E; contradiction.
@@ -445,7 +446,7 @@ Definition is_emit (o : op) : bool := match o with OEmit _ _ _ => true | _ => fa
 
 Lemma step_request_silent mods t o : is_emit o = false -> fst (snd (step mods t o)) = [].
 Proof.
-  destruct o as [c spec d|m0 lv py|c|c]; simpl; intros H; try discriminate.
+  destruct o as [c spec d|m0 lv py|c|c|c sp|c sp]; simpl; intros H; try discriminate; auto.
   - destruct (handle_logging mods t c spec d); auto.
   - destruct (reset_connection mods t c); auto.
   - destruct (reset_connection mods t c); auto.
@@ -468,7 +469,7 @@ Proof.
   - destruct (step_chosen mods t2 o) as [SW2 SC2].
     rewrite deliv_to_app. f_equal.
     + destruct (is_emit o) eqn:E.
-      * destruct o as [c0 spec d|m0 lv py|c0|c0]; try discriminate. simpl.
+      * destruct o as [c0 spec d|m0 lv py|c0|c0|c0 sp|c0 sp]; try discriminate. simpl.
         rewrite !handle_exact by auto. rewrite A. auto.
       * rewrite !step_request_silent by auto. auto.
     + apply IHr; auto. intros m. rewrite SC1, SC2. rewrite A. auto.
@@ -488,3 +489,62 @@ Lemma unknown_module_no_effect mods t c s d :
   is_all (Some s) = false -> mem_name s mods = false ->
   step mods t (OLogging c (Some s) d) = (t, ([], Some EKey)).
 Proof. intros A M. simpl. unfold handle_logging. rewrite A, M. reflexivity. Qed.
+
+(* ------------------------------------------------------------------ activation requests: frame *)
+(* activate / deactivate requests (event subscriptions, property C08) do not touch remote logging *)
+Definition not_activation (o : op) : bool := negb (is_activation o).
+Definition without_activation (ops : list op) : list op := filter not_activation ops.
+
+Lemma step_activation mods t o : is_activation o = true -> step mods t o = (t, ([], None)).
+Proof. destruct o; simpl; intros H; try discriminate; reflexivity. Qed.
+
+Lemma run_from_without_activation mods ops : forall t,
+  run_from mods t ops = run_from mods t (without_activation ops).
+Proof.
+  induction ops as [|o r IH]; intros t; simpl; auto.
+  unfold not_activation. destruct (is_activation o) eqn:A; simpl.
+  - rewrite (step_activation mods t o A). simpl. apply IH.
+  - apply IH.
+Qed.
+
+Lemma trace_from_without_activation mods ops : forall t,
+  trace_from mods t ops = trace_from mods t (without_activation ops).
+Proof.
+  induction ops as [|o r IH]; intros t; simpl; auto.
+  unfold not_activation. destruct (is_activation o) eqn:A; simpl.
+  - rewrite (step_activation mods t o A). simpl. apply IH.
+  - rewrite IH. reflexivity.
+Qed.
+
+Lemma run_without_activation mods ops : run mods ops = run mods (without_activation ops).
+Proof. apply (run_from_without_activation mods ops []). Qed.
+
+(* inserting activation requests anywhere into a history changes nothing *)
+Lemma run_insert_activation mods ops1 acts ops2 :
+  forallb is_activation acts = true -> run mods (ops1 ++ acts ++ ops2) = run mods (ops1 ++ ops2).
+Proof.
+  intros H. rewrite run_without_activation, (run_without_activation mods (ops1 ++ ops2)).
+  unfold without_activation. rewrite !filter_app.
+  assert (filter not_activation acts = []) as E.
+  { induction acts as [|a r IH]; simpl in *; auto. apply andb_true_iff in H as [H1 H2].
+    unfold not_activation at 1. rewrite H1. simpl. auto. }
+  rewrite E. reflexivity.
+Qed.
+
+(* a subscription survives any number of activation requests of anybody: only a logging request of c, *IDN? of c or
+   disconnect of c among the later operations can end it *)
+Lemma subscription_survives mods ops later m c x :
+  chosen (run mods ops) m c = Some x ->
+  (forall o, In o later -> is_activation o = true \/ by_conn c o = false) ->
+  chosen (run mods (ops ++ later)) m c = Some x.
+Proof.
+  intros H. induction later as [|o r IH] using rev_ind; intros A.
+  - rewrite app_nil_r. exact H.
+  - rewrite app_assoc. unfold run. rewrite fold_left_app. simpl.
+    rewrite (proj2 (step_chosen mods _ o)).
+    assert (req_effect mods o m c = None) as E.
+    { destruct (A o) as [Ao|Bo]; [apply in_or_app; right; left; reflexivity| |].
+      - destruct o; simpl in *; try discriminate; reflexivity.
+      - destruct o as [c0 sp d|m0 lv py|c0|c0|c0 sp|c0 sp]; simpl in *; auto; rewrite Bo; auto. }
+    rewrite E. apply IH. intros o' I. apply A. apply in_or_app; left; exact I.
+Qed.
